@@ -50,7 +50,13 @@ def passing_tests(root):
 
 
 def run_demo(root, demo):
-    p = subprocess.run([PY, '-B', demo], cwd=root, capture_output=True, text=True, timeout=600)
+    # the script's own directory is sys.path[0]: the demonstration must sit inside the checkout it tests
+    local = os.path.join(root, '_seeded_demo.py')
+    shutil.copy(demo, local)
+    try:
+        p = subprocess.run([PY, '-B', local], cwd=root, capture_output=True, text=True, timeout=900)
+    finally:
+        os.remove(local)
     return p.returncode, (p.stdout + p.stderr)[-600:]
 
 
